@@ -165,6 +165,13 @@ func c02Edits(s []vtok) [][]vtok {
 			}
 		}
 		out = append(out, append(append(cp(s[:i+1]), s[i]), s[i+1:]...)) // duplicate
+		for l := 2; l <= 4 && i+l <= len(s); l++ {
+			// a block of 2..4 tokens written twice (a second index group, a second argument list, a
+			// repeated operator-operand pair) and the block left out
+			e := append(cp(s[:i+l]), s[i:i+l]...)
+			out = append(out, append(e, s[i+l:]...))
+			out = append(out, append(cp(s[:i]), s[i+l:]...))
+		}
 		if i+1 < len(s) {
 			e := cp(s)
 			e[i], e[i+1] = e[i+1], e[i]
@@ -340,9 +347,9 @@ func init() {
 		},
 		Bounds: func(tier string) string {
 			if tier == "thorough" {
-				return "full vocabulary len<=4 (1.7M); representative alphabet len<=6 (36M); all single edits of ~4000 valid sentences"
+				return "full vocabulary len<=4 (1.7M); representative alphabet len<=6 (36M); all single edits (incl. blocks of <=4 tokens doubled or left out) of ~4000 valid sentences"
 			}
-			return "full vocabulary len<=3; representative alphabet len<=5 (2M); all single edits of ~400 valid sentences"
+			return "full vocabulary len<=3; representative alphabet len<=5 (2M); all single edits (one token inserted, deleted, replaced, swapped; a block of <=4 tokens doubled or left out) of ~400 valid sentences"
 		},
 	})
 }
